@@ -369,11 +369,13 @@ def healthy_horizon(t64, t80, xs):
     return K
 
 
-def compare_variants(eg, stt, xs, prefix=""):
+def compare_variants(eg, stt, xs, prefix="", kappa=1.0):
     """the differential half of the property: same x, info, nit, success"""
     require(stt.shapes == eg.shapes and stt.xtype == eg.xtype, prefix + "result_structure_differs",
             f"eager {eg.xtype}{eg.shapes} static {stt.xtype}{stt.shapes}")
-    close(stt.x, eg.x, prefix + "x_eager_vs_compiled", tol=1e-9, scale=xs,
+    # (the two variants evaluate the same recurrences with different operation fusion: their round-off difference is
+    #  amplified by the conditioning of the system; 1e-9 is kept up to kappa = 32 and grows linearly beyond)
+    close(stt.x, eg.x, prefix + "x_eager_vs_compiled", tol=1e-9 * max(1.0, kappa / 32.0), scale=xs,
           detail=f"eager(info={eg.info},nit={eg.nit}) static(info={stt.info},nit={stt.nit})")
     require(eg.nit == stt.nit, prefix + "nit_eager_vs_compiled", f"eager nit={eg.nit} info={eg.info}; "
             f"static nit={stt.nit} info={stt.info}")
@@ -594,7 +596,7 @@ def check_hpd(rec):
             require(stt.info == 0, "compiled_not_converged_with_ample_iterations",
                     f"info={stt.info} nit={stt.nit} cfg={run_cfg}")
         # ---- differential
-        compare_variants(eg, stt, P.xs)
+        compare_variants(eg, stt, P.xs, kappa=2.0 ** rec["kappa_log2"])
         limit_exact = eg.info == 0 and run_cfg["maxiter"] is not None and eg.nit == run_cfg["maxiter"]
         if limit_exact:
             classes.append("converged_exactly_at_maxiter")
@@ -613,7 +615,7 @@ def check_hpd(rec):
     if rec["direct"]:
         sd = run_static(M, jt, x0t, run_cfg, direct=True)
         self_consistent(sd, "compiled")
-        compare_variants(eg, sd, P.xs, prefix="unjitted_")
+        compare_variants(eg, sd, P.xs, prefix="unjitted_", kappa=2.0 ** rec["kappa_log2"])
         classes.append("static_unjitted")
     if rec["public"]:
         _, jnp, jft, _ = _jx()
